@@ -47,9 +47,41 @@ type Mutex struct {
 	nGrant  int
 }
 
+// strict reports whether lock acquisitions of goroutine g go through arbitration even when
+// the lock is free: two goroutines that become runnable in the same quiescent step and then
+// reach the same free lock would otherwise be ordered by the Go scheduler. With World.StrictLocks
+// every acquisition by a simulated goroutine is queued and granted at the next quiescent point, in
+// an order that depends only on the (stable) goroutine names. The driver goroutine (g == nil) is
+// exempt: it is the one that runs the arbitration.
+func strict(g *G) *World {
+	if g == nil {
+		return nil
+	}
+	if w := Cur(); w != nil && w.StrictLocks {
+		return w
+	}
+	return nil
+}
+
 func (l *Mutex) Lock() {
 	g := enter()
 	l.m.Lock()
+	if sw := strict(g); sw != nil {
+		w := &waiter{g: g, ch: make(chan struct{}, 1)}
+		l.waiters = append(l.waiters, w)
+		ask := !l.held && !l.pending
+		if ask {
+			l.pending = true
+		}
+		l.m.Unlock()
+		if ask {
+			sw.addGrant(l)
+		}
+		<-w.ch
+		enterG(g)
+		acquired(l, g, true)
+		return
+	}
 	if !l.held && !l.pending && len(l.waiters) == 0 {
 		l.held = true
 		l.holder = g
@@ -238,6 +270,22 @@ type RWMutex struct {
 func (l *RWMutex) RLock() {
 	g := enter()
 	l.m.Lock()
+	if sw := strict(g); sw != nil {
+		w := &waiter{g: g, ch: make(chan struct{}, 1)}
+		l.rwait = append(l.rwait, w)
+		ask := !l.announced && !l.pending // (behind an announced writer the reader is admitted by its Unlock)
+		if ask {
+			l.pending = true
+		}
+		l.m.Unlock()
+		if ask {
+			sw.addGrant(l)
+		}
+		<-w.ch
+		enterG(g)
+		acquired(l, g, false)
+		return
+	}
 	if !l.announced && !l.pending {
 		l.readers++
 		l.m.Unlock()
@@ -274,6 +322,22 @@ func (l *RWMutex) RUnlock() {
 func (l *RWMutex) Lock() {
 	g := enter()
 	l.m.Lock()
+	if sw := strict(g); sw != nil {
+		w := &waiter{g: g, ch: make(chan struct{}, 1)}
+		l.wqueue = append(l.wqueue, w)
+		ask := !l.announced && !l.pending
+		if ask {
+			l.pending = true
+		}
+		l.m.Unlock()
+		if ask {
+			sw.addGrant(l)
+		}
+		<-w.ch
+		enterG(g)
+		acquired(l, g, true)
+		return
+	}
 	if !l.announced && !l.pending && len(l.wqueue) == 0 {
 		l.announced = true
 		if l.readers == 0 {
@@ -335,9 +399,12 @@ func (l *RWMutex) firstWaiter() string {
 	l.m.Lock()
 	defer l.m.Unlock()
 	min := ""
-	for i, w := range l.wqueue {
-		if n := wname(w); i == 0 || n < min {
-			min = n
+	first := true
+	for _, q := range [][]*waiter{l.wqueue, l.rwait} {
+		for _, w := range q {
+			if n := wname(w); first || n < min {
+				min, first = n, false
+			}
 		}
 	}
 	return min
@@ -351,6 +418,9 @@ func (l *RWMutex) grant(w *World) {
 
 func (l *RWMutex) grantLocked(w *World) {
 	l.pending = false
+	if l.announced {
+		return // readers queued behind the announced writer are admitted by its Unlock
+	}
 	// readers that arrived while arbitration was outstanding are admitted first
 	// (they arrived after the previous writer left and before the next announced)
 	for _, r := range l.rwait {
@@ -358,7 +428,7 @@ func (l *RWMutex) grantLocked(w *World) {
 		r.ch <- struct{}{}
 	}
 	l.rwait = nil
-	if l.announced || len(l.wqueue) == 0 {
+	if len(l.wqueue) == 0 {
 		return
 	}
 	i := pick(w, l.wqueue, &l.nGrant)
